@@ -22,6 +22,9 @@ type PocketNode struct {
 	EvidenceStore   *CacheStorage
 	SessionStore    *CacheStorage
 	DoCacheInitOnce sync.Once
+	// EvidenceMutex serializes the "check the stored evidence, then change it" sequences of this servicer:
+	// relay validation followed by storing the proof, and sealing the evidence for a claim
+	EvidenceMutex sync.Mutex
 }
 
 func (n *PocketNode) GetAddress() sdk.Address {
